@@ -100,3 +100,64 @@ func init() {
 		minEvals:    1000,
 	}
 }
+
+// compareBuilds: per-chunk transcripts of the same deterministic program under the default
+// and the purego build must be identical (value level decides; limb level is recorded).
+func compareBuilds(rc *runCfg, pl *plan, m *merged) error {
+	byCfg := map[string]map[string][2]string{}
+	for k, v := range m.extra {
+		if !strings.HasSuffix(k, "/chunks") {
+			continue
+		}
+		cfg := strings.SplitN(k, "/", 2)[0]
+		if byCfg[cfg] == nil {
+			byCfg[cfg] = map[string][2]string{}
+		}
+		if cm, ok := v.(map[string]any); ok {
+			for id, pair := range cm {
+				if pa, ok := pair.([]any); ok && len(pa) == 2 {
+					byCfg[cfg][id] = [2]string{fmt.Sprint(pa[0]), fmt.Sprint(pa[1])}
+				}
+			}
+		}
+		delete(m.extra, k)
+	}
+	a, b := byCfg["default"], byCfg["purego"]
+	if len(a) == 0 || len(b) == 0 {
+		m.addInconclusive("transcripts of one build configuration are missing: cross-build comparison not done")
+		return nil
+	}
+	compared, limbSame := 0, 0
+	for id, pa := range a {
+		pb, ok := b[id]
+		if !ok {
+			continue
+		}
+		compared++
+		if pa[1] == pb[1] {
+			limbSame++
+		}
+		if pa[0] != pb[0] {
+			var cid int64
+			fmt.Sscan(id, &cid)
+			m.violations = append(m.violations, taggedViolation{Violation: mon.Violation{Case: cid, Kind: "default and purego builds disagree on the value-level transcript of the same program",
+				Detail: map[string]any{"chunk": id, "default": pa[0], "purego": pb[0]}}, Config: "purego"})
+		}
+	}
+	m.extra["chunks compared across builds"] = compared
+	m.extra["chunks whose Multiply/Square outputs were also limb-for-limb identical (recorded, not deciding)"] = limbSame
+	if compared == 0 {
+		m.addInconclusive("no chunk was executed under both builds")
+	}
+	return nil
+}
+
+func init() {
+	plans["C20"] = &plan{
+		stages: []stage{{config: "default"}, {config: "purego"}},
+		rule: "the same monitor runs in a worker built without tags (amd64 assembly feMul/feSquare) and in one built with -tags purego from the same working tree. Each chunk (seeded by its index) (1) evaluates Multiply and Square on 24 operand pairs drawn from the reachable-representation recipes, half of them limb-maximising (limbs at 2^51+2^32, limb0 at 2^51+19*2^32), comparing value (Bytes and raw limbs) with math/big and asserting output limbs < 2^52 in each build; (2) places out/a/b at the start or end of an mmap'ed page bordered by PROT_NONE pages for all aliasing patterns (out=a, out=b, a=b, all equal), so any access outside the 40-byte operands is a fatal fault attributed to the chunk; (3) runs a deterministic public-API program (field inversion/sqrt/wide reduction, scalar arithmetic, decoding of arbitrary bytes, all point arithmetic and all five multiplications, encodings, Montgomery form, exported coordinates) hashing every value-level output; the controller compares the per-chunk hashes across the two builds. distinct by (operation, operand values and raw limbs).",
+		assumptions: append([]string{"only the configurations this machine can execute are monitored: amd64 default and purego; field/fe_arm64.s cannot be run here"}, commonAssumptions...),
+		minEvals:    1000,
+		custom:      compareBuilds,
+	}
+}
